@@ -119,6 +119,7 @@ type prop struct {
 	root    string
 	cache   sync.Map // line -> core.Outcome, filled by Generate's worker pool
 	nextDir atomic.Int64
+	alone   sync.RWMutex // see execSched
 	slow    atomic.Int64 // cases in which a due forgetter did not run / a request hung
 	failed  atomic.Int64 // cases with an oracle failure
 	stats   struct {
@@ -1665,22 +1666,35 @@ const baseTick = 40 * time.Millisecond
 // It returns the outcome and the steps that were executed.
 func (p *prop) execSched(K int, src stepSource, minAttempt int, cf bool) (core.Outcome, []step) {
 	U := baseTick << minAttempt
+	noisy := 0 // attempts spoilt by scheduler noise (tryAgain race, a quick answer that took too long)
 	for attempt := minAttempt; ; attempt++ {
+		// a case that keeps being spoilt by noise is run while no other case of this process runs
+		if noisy >= 2 {
+			p.alone.Lock()
+		} else {
+			p.alone.RLock()
+		}
 		impl, k, ok := p.runSched(K, src, U, cf)
+		if noisy >= 2 {
+			p.alone.Unlock()
+		} else {
+			p.alone.RUnlock()
+		}
 		p.stats.Lock()
 		p.stats.cases++
 		p.stats.Unlock()
 		if !ok {
 			return core.Outcome{Impl: "bad-op", Tags: []string{"bad-op-semantic", "trivial"}}, k.done
 		}
-		if k.raced && attempt < 5 {
+		if k.raced && noisy < 8 {
+			noisy++
 			p.stats.Lock()
 			p.stats.raced++
 			p.stats.Unlock()
 			src = &replaySource{steps: k.done}
 			continue
 		}
-		if k.late && attempt < 5 && !k.forgetTimedOut && k.infra == "" {
+		if k.late && attempt < minAttempt+5+noisy && !k.forgetTimedOut && k.infra == "" && U < 2*time.Second {
 			U *= 2
 			p.stats.Lock()
 			p.stats.retimed++
